@@ -27,7 +27,7 @@ from harness import core, c06, c09, c13, c14, c18, simsub
 from harness.popspec import Sub
 from harness.core import coq_list, coq_string, coqZ
 
-THEOREMS = ['C19_buffers', 'C19_sensitivity_switch', 'C19_solver_history']
+THEOREMS = ['C19_buffers', 'C19_sensitivity_switch', 'C19_solver_history', 'C19_transcript_pure', 'C19_settings_pure']
 HEADER = '''From Coq Require Import ZArith List Bool String.
 From Chi Require Import Model.Mechanistic Model.Fixing Tie.C08Tie Tie.C09Tie.
 Import ListNotations.
